@@ -51,6 +51,10 @@ def gen(ctx):
                     mask = ms[(ci + si + ctx.seed) % len(ms)]
                 enc.append(symgen.enc_line(sym, ver, level, mask, segs))
                 meta.append((sym, ver, level, mask, segs, label))
+    # the end of the bit stream in every relative position to the capacity (shared with C02)
+    for t in symgen.tail_corpus(r, ctx.tier == 'quick'):
+        enc.append(symgen.enc_line(t[0], t[1], t[2], t[3], t[4]))
+        meta.append(t)
     out = ctx.go(enc)
     dec = []
     for (sym, *_), o in zip(meta, out):
